@@ -27,6 +27,7 @@ type config struct {
 	Storage   string
 	ZstdImpl  string
 	Proxy     bool
+	Metrics   bool // enable_endpoint_metrics: the cache is wrapped in the metrics decorator
 	FillFrac  float64
 	ItemClass string // "small" (many files) | "medium" | "large"
 	Rounds    int
